@@ -163,13 +163,53 @@ def main():
     define("sheet_delete_writes", W, coq_list([w for _, w in sorted(ws)]), "cssstylesheet.py CSSStyleSheet.deleteRule l.%d" % fn.lineno)
 
     # CSSStyleSheet.insertRule: post settings = top-level writes on `rule`; nested writes (on the rule parsed
-    # into the temporary sheet) are accepted only for attributes the post settings overwrite
+    # into the temporary sheet) are accepted only for attributes the post settings overwrite; the @namespace branch
+    # may restore the rule list when _cleanNamespaces refuses:
+    #     except ...: del self._cssRules[:]; for r in <saved list>: <link writes on r>; self._cssRules.insert(len(..), r); raise
     fn = find_func(sheet_t, ["CSSStyleSheet", "insertRule"])
     post = [w for w in (link_write(s, is_name('rule')) for s in fn.body) if w]
-    nested = len(all_link_stores(fn)) - len(post)
     postflds = {f for f, _ in post}
+    saved = {n.targets[0].id for n in ast.walk(fn)
+             if isinstance(n, ast.Assign) and len(n.targets) == 1 and isinstance(n.targets[0], ast.Name)
+             and isinstance(n.value, ast.Call) and isinstance(n.value.func, ast.Name) and n.value.func.id == 'list'
+             and len(n.value.args) == 1 and isinstance(n.value.args[0], ast.Attribute)
+             and n.value.args[0].attr == '_cssRules' and is_name('self')(n.value.args[0].value)}
+    restore, restore_nodes = None, set()
+    for hd in [n for n in ast.walk(fn) if isinstance(n, ast.ExceptHandler)]:
+        loops = [s for s in hd.body if isinstance(s, ast.For)]
+        if not loops:
+            continue
+        if restore is not None or len(hd.body) != 3 or len(loops) != 1:
+            raise Refused("insertRule: restore handler of unexpected shape at line %d" % hd.lineno)
+        d, lp, rs = hd.body
+        ok_del = isinstance(d, ast.Delete) and len(d.targets) == 1 and isinstance(d.targets[0], ast.Subscript) \
+            and isinstance(d.targets[0].value, ast.Attribute) and d.targets[0].value.attr == '_cssRules' \
+            and isinstance(d.targets[0].slice, ast.Slice) and d.targets[0].slice.lower is None and d.targets[0].slice.upper is None
+        ok_loop = lp is loops[0] and isinstance(lp.target, ast.Name) and isinstance(lp.iter, ast.Name) and lp.iter.id in saved \
+            and not lp.orelse
+        if not (ok_del and ok_loop and isinstance(rs, ast.Raise) and rs.exc is None):
+            raise Refused("insertRule: restore handler of unexpected shape at line %d" % hd.lineno)
+        var = is_name(lp.target.id)
+        ws, inserts = [], 0
+        for s in lp.body:
+            w = link_write(s, var)
+            if w:
+                ws.append(w)
+            elif isinstance(s, ast.Expr) and isinstance(s.value, ast.Call) and isinstance(s.value.func, ast.Attribute) \
+                    and s.value.func.attr == 'insert' and isinstance(s.value.func.value, ast.Attribute) \
+                    and s.value.func.value.attr == '_cssRules' and len(s.value.args) == 2 and var(s.value.args[1]) \
+                    and isinstance(s.value.args[0], ast.Call) and isinstance(s.value.args[0].func, ast.Name) \
+                    and s.value.args[0].func.id == 'len':
+                inserts += 1
+            else:
+                raise Refused("insertRule: restore loop statement of unexpected shape at line %d" % s.lineno)
+        if inserts != 1 or not isinstance(lp.body[-1], ast.Expr):
+            raise Refused("insertRule: restore loop must end with the re-insertion")
+        restore = ws
+        restore_nodes = {id(s) for s in lp.body}
+    nested = len(all_link_stores(fn)) - len(post) - len(restore or [])
     for n in ast.walk(fn):
-        if isinstance(n, ast.Assign) and n not in fn.body:
+        if isinstance(n, ast.Assign) and n not in fn.body and id(n) not in restore_nodes:
             w = link_write(n, is_name('rule'))
             if w:
                 nested -= 1
@@ -178,6 +218,10 @@ def main():
     if nested != 0:
         raise Refused("insertRule: unexpected link write")
     define("sheet_insert_post", W, coq_list(post), "cssstylesheet.py CSSStyleSheet.insertRule post settings l.%d" % fn.lineno)
+    define("sheet_insert_ns_restore_present", "bool", "true" if restore is not None else "false",
+           "insertRule, @namespace branch: when _cleanNamespaces refuses, the saved list is restored (del self._cssRules[:]; "
+           "for r in saved: <writes>; raw re-insert; raise -- before the post settings)")
+    define("sheet_insert_ns_restore", W, coq_list(restore or []), "writes on every restored rule")
 
     # CSSStyleSheet._setCssText: clearing and rollback of the rule list
     fn = find_func(sheet_t, ["CSSStyleSheet", "_setCssText"])
